@@ -248,10 +248,13 @@ def ray_scale(Ap, basep, lb, ub, b):
     return float(r.x[-1])
 
 
-def rows_sharing_a_solution(B, X, lb, ub, A=None, scale=0.0):
+def rows_sharing_a_solution(B, X, lb, ub, A=None, scale=0.0, opt_pred=None):
     """Index pairs (i, j), i < j, of rows with different targets whose returned intensity vectors are bit-identical although some
     coordinate lies strictly inside its bounds.  Two different problems solved numerically do not end in the same bits (even targets
-    1e-12 apart give intensities 1e-13 apart), so such a pair means a result was copied from another row."""
+    1e-12 apart give intensities 1e-13 apart), so such a pair means a result was copied from another row.  With opt_pred (the optimal
+    predicted capture of every row, from an independent solve) a pair counts only if the two optima differ by more than 1e-7 of the
+    gamut's size: an in-gamut target next to a facet and the projection of an out-of-gamut target onto the same facet point are
+    different targets with the same answer."""
     B, X = np.asarray(B, dtype=float), np.asarray(X, dtype=float)
     lb = np.broadcast_to(np.asarray(lb, dtype=float), X.shape[1:])
     ub = np.broadcast_to(np.asarray(ub, dtype=float), X.shape[1:])
@@ -265,5 +268,7 @@ def rows_sharing_a_solution(B, X, lb, ub, A=None, scale=0.0):
                 inside = inside & (np.abs(np.asarray(A, dtype=float)).sum(axis=0) > 0)     # a source no receptor sees is free
             # (targets that differ by less than 1e-9 of the gamut's size - e.g. two denormal numbers - are the same problem numerically)
             if np.array_equal(X[i], X[j]) and float(np.max(np.abs(B[i] - B[j]))) > 1e-9 * scale and not np.array_equal(B[i], B[j]) and np.any(inside):
+                if opt_pred is not None and float(np.max(np.abs(np.asarray(opt_pred[i], dtype=float) - np.asarray(opt_pred[j], dtype=float)))) <= 1e-7 * max(scale, 1e-300):
+                    continue
                 out.append((i, j))
     return out
